@@ -16,7 +16,7 @@
 (* minified; expected value of both merges.                                *)
 (***************************************************************************)
 EXTENDS Gen_Values, JsonValue
-CONSTANTS MaxNodes2, SMode, LayE, LayV   \* SMode: "pairs" | "wide3" | "nest2" | "widearr"; whitespace layouts of the two texts
+CONSTANTS MaxNodes2, SMode, LayE, LayV   \* SMode: "pairs" | "wide3" | "nest2" | "esckeys" | "widearr"; whitespace layouts of the two texts
 VARIABLES tree2
 
 IsNEObj(v) == v.k = "obj" /\ Len(v.m) > 0
@@ -78,6 +78,17 @@ Pick2(sx, f, rev) == LET seq == IF rev THEN <<2, 1>> ELSE <<1, 2>>
 InnerV2 == {Obj(Pick2(sx, f, rev)) : sx \in {{1}, {2}, {1, 2}}, f \in [{1, 2} -> VV2], rev \in BOOLEAN}
 Nest2E == {Obj(<< <<KD, i>>, <<K3[3], Tok(N1)>> >>) : i \in InnerE2} \cup {Obj(<< <<K3[3], Tok(N1)>>, <<KD, i>> >>) : i \in InnerE2}
 Nest2V == {Obj(<< <<KD, i>>, <<K3[3], Tok(SA)>> >>) : i \in InnerV2} \cup {Obj(<< <<K3[3], Tok(SA)>>, <<KD, i>> >>) : i \in InnerV2}
+\* "esckeys": member names of every length whose spelling contains an escape at every position relative to the 16/32/64-byte
+\* blocks of the scanners, matched against the same name spelled differently (keys are matched by decoded value)
+FillK(n) == [i \in 1..n |-> 107]
+EscPairs == << << <<92,117,48,48,52,49>>, <<65>> >>,          \* \u0041  vs  A
+               << <<65>>, <<92,117,48,48,52,49>> >>,
+               << <<92,110>>, <<92,117,48,48,48,97>> >>,      \* \n  vs  \u000a
+               << <<92,34>>, <<92,117,48,48,50,50>> >> >>     \* \"  vs  \u0022
+EscOffs == {0, 1, 14, 15, 16, 17, 30, 31, 32, 33, 47, 48, 62, 63, 64, 65}
+KeyLit(a, mid, b) == <<34>> \o FillK(a) \o mid \o FillK(b) \o <<34>>
+EscE == {Obj(<< <<KeyLit(a, EscPairs[j][1], b), Tok(N1)>>, <<K3[2], Tok(SA)>> >>) : a \in EscOffs, b \in EscOffs, j \in 1..Len(EscPairs)}
+EscV(a, b, j) == Obj(<< <<KeyLit(a, EscPairs[j][2], b), Tok(N12)>>, <<K3[3], Tok(NULL)>> >>)
 \* "widearr": top-level arrays with many elements (the lazy parser's node stack grows past its initial capacity)
 WArr(n) == Arr([i \in 1..n |-> Tok(IF i % 2 = 0 THEN N1 ELSE SA)])
 WideArrT == {WArr(n) : n \in {0, 1, 15, 16, 17, 33, 70}} \cup {Obj(<< <<K3[1], WArr(17)>> >>), Tok(N1), Obj(<< <<K3[1], Tok(N1)>> >>)}
@@ -87,6 +98,9 @@ InitS == /\ layout = 0
                                     /\ tree2 \in {t \in Small : DupFree(DenT(t))}
               [] SMode = "wide3" -> tree \in Wide3E /\ tree2 \in Wide3V
               [] SMode = "nest2" -> tree \in Nest2E /\ tree2 \in Nest2V
+              [] SMode = "esckeys" -> \E a \in EscOffs, b \in EscOffs, j \in 1..Len(EscPairs) :
+                                        /\ tree = Obj(<< <<KeyLit(a, EscPairs[j][1], b), Tok(N1)>>, <<K3[2], Tok(SA)>> >>)
+                                        /\ tree2 = EscV(a, b, j)
               [] SMode = "widearr" -> tree \in WideArrT /\ tree2 \in WideArrT
 NextS == UNCHANGED <<tree, tree2, layout>>
 
